@@ -38,6 +38,13 @@ fn next(s: &mut u64) -> u64 {
     z ^ (z >> 31)
 }
 
+static RQ_DELAY: Mutex<Vec<(u64, u64)>> = Mutex::new(Vec::new());
+
+/// cumulative time the calling thread waited on a run queue (second field of /proc/thread-self/schedstat)
+fn runqueue_wait_ns() -> u64 {
+    std::fs::read_to_string("/proc/thread-self/schedstat").ok().and_then(|s| s.split_whitespace().nth(1).and_then(|x| x.parse().ok())).unwrap_or(0)
+}
+
 fn run_generic<S: iceoryx2::service::Service>(config: &iceoryx2::config::Config, cfg: ECfg, mode: &Mode, tag: u64) -> ExecResult {
     let name = format!("ev_{}_{}", std::process::id(), tag);
     let log: Mutex<Vec<Ev>> = Mutex::new(Vec::new());
@@ -58,6 +65,7 @@ fn run_generic<S: iceoryx2::service::Service>(config: &iceoryx2::config::Config,
             let mut mine: Vec<Ev> = Vec::new();
             let mut delivered_total = 0i64;
             let do_wait = |kind: u8, mine: &mut Vec<Ev>, delivered_total: &mut i64| {
+                let rq0 = runqueue_wait_ns();
                 let call = ts::now();
                 let mut got = Vec::new();
                 let r = match kind {
@@ -68,7 +76,12 @@ fn run_generic<S: iceoryx2::service::Service>(config: &iceoryx2::config::Config,
                 };
                 let _ = r;
                 *delivered_total += got.iter().map(|x| x.1 as i64).sum::<i64>();
-                mine.push(Ev::Wait { kind, call, ret: ts::now(), got });
+                let ret = ts::now();
+                if kind == 9 {
+                    // time this thread spent runnable-but-not-running during the probe: load, not sleep
+                    RQ_DELAY.lock().unwrap().push((call, runqueue_wait_ns().saturating_sub(rq0) / 1_000_000));
+                }
+                mine.push(Ev::Wait { kind, call, ret, got });
             };
             for _round in 0..cfg.rounds {
                 bar.wait();
@@ -175,11 +188,14 @@ fn run_generic<S: iceoryx2::service::Service>(config: &iceoryx2::config::Config,
             v("notification_lost", format!("successful notify of id {} was never followed by a delivery of that id", n.0));
         }
     }
+    let mut descheduled = 0u64;
     for w in waits.iter().filter(|w| w.0 == 9) {
         let got: u64 = w.3.iter().map(|x| x.1).sum();
         let ms = (w.2 - w.1) / 1_000_000;
         if got == 0 {
             v("pending_notification_not_delivered", format!("quiescent probe: undelivered notifications exist, no notifier in flight, timed_wait(1 s) returned nothing after {} ms", ms));
+        } else if ms >= 900 && RQ_DELAY.lock().unwrap().iter().any(|(c, d)| *c == w.1 && *d >= 200) {
+            descheduled += 1; // the thread was kept off the CPU for >= 200 ms of the probe: the duration says nothing
         } else if ms >= 900 {
             v("lost_wake_up", format!("quiescent probe: the wait slept {} ms (time-out branch) although an undelivered notification existed before it began and nobody was in flight", ms));
         }
@@ -196,7 +212,8 @@ fn run_generic<S: iceoryx2::service::Service>(config: &iceoryx2::config::Config,
             obs = vkit::mix(obs, (*id as u64) << 32 | *c);
         }
     }
-    ExecResult { stats, violations: viol, nontrivial: nprobes > 0 || waits.iter().any(|w| !w.3.is_empty()), observed: obs, inconclusive: false }
+    RQ_DELAY.lock().unwrap().clear();
+    ExecResult { stats, violations: viol, nontrivial: nprobes > 0 || waits.iter().any(|w| !w.3.is_empty()), observed: obs, inconclusive: descheduled > 0 }
 }
 
 pub fn execute(config: &iceoryx2::config::Config, cfg: ECfg, mode: &Mode, tag: u64) -> ExecResult {
